@@ -12,6 +12,8 @@ CONSTANTS
   TimerOn = FALSE
   WithFail = TRUE
   MaxOps = 11
+  Muts = {"same", "grow", "shrink"}
   ResetOnError = TRUE
   AddBeforeChecks = TRUE
   RemoveWhole = TRUE
+  MeasureOnArrival = TRUE
